@@ -301,7 +301,185 @@ func runC14(c *Ctx) {
 			w.Sample(map[string]interface{}{"directive": d.text, "star_operands": d.pre, "fmt_of_Safe_3.5": fmt.Sprintf(d.text, append(append([]interface{}{}, d.pre...), redact.Safe(3.5))...)})
 		}
 	})
+	runC14Contexts(c)
 	c.res.Exhaustive = true
-	c.res.Bound = "32 flag subsets x widths {absent,*=0,1,7,12,1000,*=-7} x precisions {absent,'.',0,1,5,*=3,*=-1} x 62 verbs; 21 operand kinds x 4 wrappers"
+	c.res.Bound = "32 flag subsets x widths {absent,*=0,1,7,12,1000,*=-7} x precisions {absent,'.',0,1,5,*=3,*=-1} x 62 verbs; 21 operand kinds x 4 wrappers; " +
+		"context family: the same flag/width/precision product x verbs {v,d,x,s,q,e} reached in 12 contexts (after an earlier directive with a width, precision, star or flags; after earlier elements of a slice, struct or map, among them zero integers); " +
+		"wide family: widths/precisions {9999,10000,12345,65536,100000} x 8 flag subsets x verbs {v,d,x,s}"
 	c.res.Assumptions = []string{"go1.23.5 fmt is the reference fmt.State", "a present width of 0 and an absent width are the same width (fmt has no syntax for the former other than '*')"}
+}
+
+// c14ctx is one way of reaching a directive other than as the only directive with the formatter as its only operand.
+type c14ctx struct {
+	name   string
+	prefix string        // directives printed before the one under test
+	preArg []interface{} // their operands
+	wrap   func(x interface{}) interface{}
+}
+
+func c14contexts() []c14ctx {
+	id := func(x interface{}) interface{} { return x }
+	return []c14ctx{
+		{"after-width", "%6d|", []interface{}{1}, id},
+		{"after-width-prec", "%-9.4f|", []interface{}{2.5}, id},
+		{"after-star", "%*d|", []interface{}{5, 1}, id},
+		{"after-star-prec", "%.*f|", []interface{}{3, 1.5}, id},
+		{"after-flags", "%+#x|% d|", []interface{}{3, 4}, id},
+		{"after-zero-width", "%08.3d|%012s|", []interface{}{3, "s"}, id},
+		{"slice-after-zero-int", "", nil, func(x interface{}) interface{} { return []interface{}{0, x} }},
+		{"slice-after-mixed", "", nil, func(x interface{}) interface{} { return []interface{}{"", 0.0, uint8(0), true, x} }},
+		{"struct-after-zero-int", "", nil, func(x interface{}) interface{} { return struct {
+			A int
+			B interface{}
+		}{0, x} }},
+		{"map-after-zero-key", "", nil, func(x interface{}) interface{} { return map[int]interface{}{0: x} }},
+		{"slice-twice", "", nil, func(x interface{}) interface{} { return []interface{}{x, 0, x} }},
+		{"after-width-in-slice", "%5v|", []interface{}{[]int{0, 1}}, func(x interface{}) interface{} { return []interface{}{int64(0), x} }},
+	}
+}
+
+// seenStates records every directive state a formatter is reached with during one call.
+type seenStates struct{ l *[]dirState }
+
+func (c seenStates) Format(s fmt.State, verb rune) { *c.l = append(*c.l, readState(s, verb).norm()) }
+
+// runC14Contexts: what a Formatter sees (and what MakeFormat reproduces) must not depend on what was printed before
+// it in the same call: earlier directives with widths/precisions/flags, earlier elements of the same container.
+// Reference: the standard fmt package reaching the same formatter through the same format and operands.
+func runC14Contexts(c *Ctx) {
+	ctxs := c14contexts()
+	verbs := []rune{'v', 'd', 'x', 's', 'q', 'e'}
+	type dir struct {
+		text string
+		pre  []interface{}
+	}
+	var dirs []dir
+	for fs := 0; fs < 32; fs++ {
+		var fl strings.Builder
+		for i, f := range c14flags {
+			if fs&(1<<i) != 0 {
+				fl.WriteByte(f)
+			}
+		}
+		for _, w := range c14widths {
+			if fs&16 != 0 && (fs&2 != 0 || (w.star && w.arg < 0)) {
+				continue // '0' with '-': outside the comparison with fmt (see C04)
+			}
+			for _, p := range c14precs {
+				for _, v := range verbs {
+					d := dir{text: "%" + fl.String() + w.text + p.text + string(v)}
+					if w.star {
+						d.pre = append(d.pre, w.arg)
+					}
+					if p.star {
+						d.pre = append(d.pre, p.arg)
+					}
+					dirs = append(dirs, d)
+				}
+			}
+		}
+	}
+	// wide family
+	for _, fl := range []string{"", "-", "0", "+", "#", " ", "+0", "-#"} {
+		for _, n := range []string{"9999", "10000", "12345", "65536", "100000"} {
+			for _, v := range []rune{'v', 'd', 'x', 's'} {
+				dirs = append(dirs, dir{text: "%" + fl + n + string(v)}, dir{text: "%" + fl + "." + n + string(v)}, dir{text: "%" + fl + n + "." + n + string(v)})
+				if fl != "0" && fl != "+0" {
+					dirs = append(dirs, dir{text: "%" + fl + "*.*" + string(v), pre: []interface{}{atoiMust(n), atoiMust(n)}})
+				}
+			}
+		}
+	}
+	c.AddCount("context_directives", int64(len(dirs)))
+	c.AddCount("contexts", int64(len(ctxs)))
+	c.ParallelFor(int64(len(dirs)), func(w *Worker, i int64) {
+		d := dirs[i]
+		wide := len(d.text) > 8
+		for _, cx := range ctxs {
+			if wide && cx.prefix == "" && cx.name != "slice-after-zero-int" {
+				continue
+			}
+			format := cx.prefix + d.text
+			build := func(x interface{}) []interface{} {
+				a := append([]interface{}{}, cx.preArg...)
+				a = append(a, d.pre...)
+				return append(a, cx.wrap(x))
+			}
+			cs := map[string]interface{}{"format": format, "context": cx.name}
+			var ref, got []dirState
+			func() {
+				defer func() {
+					if r := recover(); r != nil {
+						w.Violate("C14 panic", "panic "+sprint(r)+" for format "+q(format)+" in context "+cx.name, cs)
+					}
+				}()
+				_ = fmt.Sprintf(format, build(seenStates{&ref})...)
+				_ = redact.Sprintf(format, build(seenStates{&got})...)
+			}()
+			w.Eval(1)
+			if len(ref) == 0 {
+				w.Count("not_dispatched", 1)
+				continue
+			}
+			w.Nontrivial(hashStrs(format, cx.name))
+			if fmt.Sprint(ref) != fmt.Sprint(got) {
+				w.Violate("C14 state-in-context", fmt.Sprintf("format %q, context %s: a Formatter reached through fmt sees %v, through redact's printer %v", format, cx.name, ref, got), cs)
+				continue
+			}
+			// MakeFormat under redact's printer in this context re-creates the state.
+			var outer, inner dirState
+			var jv bool
+			var f2 string
+			_ = redact.Sprintf(format, build(capture{st: &outer, justV: &jv, format: &f2, inner: &inner, useRed: true})...)
+			w.Eval(1)
+			if outer.called && (!inner.called || outer.norm() != inner.norm()) {
+				w.Violate("C14 roundtrip", "format "+q(format)+" context "+cx.name+": seen as "+outer.String()+"; MakeFormat="+q(f2)+" re-creates "+inner.String(), cs)
+			}
+			if wide {
+				// and under the standard fmt.State
+				var o2, i2 dirState
+				_ = fmt.Sprintf(format, build(capture{st: &o2, justV: &jv, format: &f2, inner: &i2, useRed: false})...)
+				if o2.called && (!i2.called || o2.norm() != i2.norm()) {
+					w.Violate("C14 roundtrip", "format "+q(format)+" context "+cx.name+" (fmt state): seen as "+o2.String()+"; MakeFormat="+q(f2)+" re-creates "+i2.String(), cs)
+				}
+			}
+			// a forwarding formatter prints what the operand prints
+			for _, x := range []interface{}{42, "hé", 2.5} {
+				if wide && !(cx.name == "after-width") {
+					break
+				}
+				want := esc(fmt.Sprintf(format, build(x)...))
+				gotS := redact.Sprintf(format, build(forwarder{x})...).StripMarkers()
+				w.Eval(1)
+				if gotS != want {
+					w.Violate("C14 forwarder-under-redact", fmt.Sprintf("context %s: redact.Sprintf(%q, forwarder(%T %v)) stripped = %s, fmt direct = %s", cx.name, format, x, x, clip14(gotS), clip14(want)), cs)
+				}
+				if wide {
+					for k, wr := range []interface{}{redact.Safe(x), redact.Unsafe(x), forwarder{x}} {
+						g := fmt.Sprintf(format, build(wr)...)
+						wn := fmt.Sprintf(format, build(x)...)
+						if g != wn {
+							w.Violate("C14 wrapper-under-fmt", fmt.Sprintf("fmt.Sprintf(%q, %s(%T %v)) has %d bytes %s, direct %d bytes %s", format, []string{"Safe", "Unsafe", "forwarder"}[k], x, x, len(g), clip14(g), len(wn), clip14(wn)), cs)
+						}
+					}
+				}
+			}
+		}
+	})
+}
+
+func atoiMust(s string) int {
+	n := 0
+	for _, ch := range s {
+		n = n*10 + int(ch-'0')
+	}
+	return n
+}
+
+// clip shortens a long rendering for a message, keeping both ends and the length.
+func clip14(s string) string {
+	if len(s) <= 120 {
+		return q(s)
+	}
+	return q(s[:50]) + "...(" + itoa(len(s)) + " bytes)..." + q(s[len(s)-50:])
 }
